@@ -188,7 +188,7 @@ fn doc_for(r: &mut R, cols: &[J]) -> J {
 }
 
 // ---- lines -----------------------------------------------------------------------------------------------------
-fn gen_line(r: &mut R, cols: &[J]) -> String {
+pub fn gen_line(r: &mut R, cols: &[J]) -> String {
     let kind = r.gen_range(0..10);
     let any_json = cols.iter().any(|c| c["src"] == "json");
     if kind < 3 || (any_json && kind < 7) {
@@ -212,7 +212,7 @@ fn gen_line(r: &mut R, cols: &[J]) -> String {
 }
 
 // ---- definitions -----------------------------------------------------------------------------------------------
-struct Pat { name: String, text: String, split: bool, inline: bool }
+pub struct Pat { name: String, text: String, split: bool, inline: bool }
 
 fn scalar_types() -> [&'static str; 6] { ["text", "int", "real", "bool", "ts", "iv"] }
 fn default_of(r: &mut R, ty: &str) -> J {
@@ -226,7 +226,7 @@ fn default_of(r: &mut R, ty: &str) -> J {
 }
 fn ident_like(s: &str) -> bool { !s.is_empty() && s.chars().next().unwrap().is_alphabetic() && s.chars().all(|c| c.is_alphanumeric() || c == '_') && s.chars().all(|c| !c.is_uppercase()) }
 
-fn gen_definition(r: &mut R) -> (Vec<Pat>, Vec<J>) {
+pub fn gen_definition(r: &mut R) -> (Vec<Pat>, Vec<J>) {
     let mut pats: Vec<Pat> = Vec::new();
     let np = r.gen_range(0..4);
     for i in 0..np {
@@ -318,7 +318,7 @@ fn modifiers(c: &J) -> Vec<String> {
 }
 
 /// CREATE TABLE text, when the grammar can say it (one modifier per column, identifier-like JSON keys)
-fn definition_sql(pats: &[Pat], cols: &[J]) -> Option<String> {
+pub fn definition_sql(pats: &[Pat], cols: &[J]) -> Option<String> {
     let mut parts: Vec<String> = pats.iter().filter(|p| !p.inline).map(|p| format!("{} = {}{}", p.name, if p.split { "split " } else { "" }, quote(&p.text))).collect();
     for (i, c) in cols.iter().enumerate() {
         let mods = modifiers(c);
